@@ -64,14 +64,18 @@ deriving DecidableEq, Repr
 section
 variable {α : Type} [Add α] [Sub α] [Mul α] [Div α] [LT α] [DecidableLT α] [MTExtra α]
 
+/-- the affinity initialiser selected by the template argument -/
+def initAff (assort : Bool) (ik : InitKind) (K nL : Nat) (userW : Tens α) (d : Nat → α) : Tens α × Nat :=
+  match ik with
+  | .random => initAffRandom assort K nL d
+  | .fromInitial => initAffFromInitial assort userW d
+  | .exact => (userW, 0)
+
 /-- start of one realization from stream position 0 of `d` (solver.hpp:601-614): affinity,
 then in-membership rows (directed), then out-membership rows.  Returns the draws consumed. -/
 def realizationStart (assort : Bool) (ik : InitKind) (K N : Nat) (nv : NetView)
     (userW : Tens α) (d : Nat → α) : State α × Nat :=
-  let wi : Tens α × Nat := match ik with
-    | .random => initAffRandom assort K nv.nL d
-    | .fromInitial => initAffFromInitial assort userW d
-    | .exact => (userW, 0)
+  let wi := initAff assort ik K nv.nL userW d
   let vi : Tens α × Nat :=
     if nv.directed then initRows N K nv.vList (fun _ _ => MTExtra.zero) (fun t => d (wi.2 + t))
     else (Tens.zeros 0 0 0, 0)
